@@ -44,7 +44,7 @@ def log(*a):
 
 
 def sh(cmd, cwd=None, timeout=None, env=None):
-    p = subprocess.run(cmd, cwd=cwd, stdout=subprocess.PIPE, stderr=subprocess.STDOUT, text=True, timeout=timeout, env=env)
+    p = subprocess.run(cmd, cwd=cwd, stdout=subprocess.PIPE, stderr=subprocess.STDOUT, text=True, errors="replace", timeout=timeout, env=env)
     return p.returncode, p.stdout
 
 
@@ -188,7 +188,7 @@ def run_impl_chunk(exe, ops, per_op_timeout=10.0):
         data = "\n".join(batch) + "\n"
         to = max(30.0, per_op_timeout + len(batch) * 0.02)
         try:
-            p = subprocess.run([exe], input=data, stdout=subprocess.PIPE, stderr=subprocess.PIPE, text=True,
+            p = subprocess.run([exe], input=data, stdout=subprocess.PIPE, stderr=subprocess.PIPE, text=True, errors="replace",
                                timeout=to, env=env, preexec_fn=_limits)
             out_lines = p.stdout.split("\n")
             if out_lines and out_lines[-1] == "":
@@ -224,7 +224,7 @@ def run_impl_chunk(exe, ops, per_op_timeout=10.0):
         if timed_out:
             # find whether it is a genuine hang on op n: rerun op n alone
             try:
-                p1 = subprocess.run([exe], input=batch[n] + "\n", stdout=subprocess.PIPE, stderr=subprocess.PIPE, text=True,
+                p1 = subprocess.run([exe], input=batch[n] + "\n", stdout=subprocess.PIPE, stderr=subprocess.PIPE, text=True, errors="replace",
                                     timeout=per_op_timeout, env=env, preexec_fn=_limits)
                 one = p1.stdout.strip().split("\n")[0] if p1.stdout.strip() else _crash_label(p1.returncode, p1.stderr)
             except subprocess.TimeoutExpired:
@@ -261,7 +261,7 @@ def _crash_label(rc, stderr):
 def _bisect_leak(exe, batch, out_lines, env):
     res = []
     for op, ans in zip(batch, out_lines):
-        p = subprocess.run([exe], input=op + "\n", stdout=subprocess.PIPE, stderr=subprocess.PIPE, text=True, timeout=60, env=env)
+        p = subprocess.run([exe], input=op + "\n", stdout=subprocess.PIPE, stderr=subprocess.PIPE, text=True, errors="replace", timeout=60, env=env)
         res.append("crash:lsan:detected_memory_leaks" if p.returncode == 79 else ans)
     return res
 
@@ -296,7 +296,7 @@ def run_model(ops, impl_answers=None):
 
     def one(chunk):
         p = subprocess.run([bsmodel_exe()], input="\n".join(chunk) + "\n", stdout=subprocess.PIPE, stderr=subprocess.PIPE,
-                           text=True, timeout=3600)
+                           text=True, errors="replace", timeout=3600)
         if p.returncode != 0:
             raise RuntimeError("bsmodel failed: " + p.stderr[-2000:])
         outl = p.stdout.split("\n")
